@@ -647,44 +647,98 @@ def _const(value):
     return ast.Constant(value=value)
 
 
+_ROOTS = ("cirq", "cirq_google", "cirq_ionq", "cirq_aqt", "cirq_pasqal")
+_SIG_CACHE = {}
+
+
+def _annotation_of(func_node, arg) -> str:
+    """The annotation (as text) of the parameter that positional index / keyword `arg` of a call to `func_node`
+    binds to, looked up in the tree under test; '' when it cannot be told.  Used to keep None <-> value
+    mutations inside what the signature documents (an `int | None` parameter), instead of feeding None to
+    constructors that do not validate."""
+    import importlib
+    import inspect
+    names = []
+    n = func_node
+    while isinstance(n, ast.Attribute):
+        names.append(n.attr)
+        n = n.value
+    if not isinstance(n, ast.Name) or n.id not in _ROOTS:
+        return ""
+    dotted = ".".join([n.id] + names[::-1])
+    if dotted not in _SIG_CACHE:
+        sig = None
+        try:
+            obj = importlib.import_module(n.id)
+            for a in names[::-1]:
+                obj = getattr(obj, a)
+            sig = inspect.signature(obj)
+        except Exception:  # noqa: BLE001
+            sig = None
+        _SIG_CACHE[dotted] = sig
+    sig = _SIG_CACHE[dotted]
+    if sig is None:
+        return ""
+    params = list(sig.parameters.values())
+    p = None
+    if isinstance(arg, int):
+        pos = [q for q in params if q.kind in (q.POSITIONAL_ONLY, q.POSITIONAL_OR_KEYWORD)]
+        if arg < len(pos):
+            p = pos[arg]
+    else:
+        p = sig.parameters.get(arg)
+    if p is None or p.annotation is p.empty:
+        return ""
+    return p.annotation if isinstance(p.annotation, str) else repr(p.annotation)
+
+
 class _Sites(ast.NodeVisitor):
-    """Collects (parent, field, index, node, kind) for every literal that can be mutated.  Keyword-argument
-    values and dict keys are ordinary children here, so they are hit like positional arguments."""
+    """Collects (parent, field, index, node, kind, annotation) for every literal that can be mutated.
+    Keyword-argument values and dict keys are ordinary children here, so they are hit like positional
+    arguments.  `annotation` is known only for literals that are direct arguments of a Cirq callable."""
 
     def __init__(self):
         self.sites = []
 
     def generic_visit(self, node):
+        if isinstance(node, ast.Call):
+            self.generic_visit(node.func) if not isinstance(node.func, (ast.Attribute, ast.Name)) else None
+            for i, a in enumerate(node.args):
+                self._consider(node, "args", i, a, (node.func, i))
+            for kw in node.keywords:
+                self._consider(kw, "value", None, kw.value, (node.func, kw.arg) if kw.arg else None)
+            return
         for field, value in ast.iter_fields(node):
             if isinstance(value, list):
                 for i, item in enumerate(value):
                     if isinstance(item, ast.AST):
-                        self._consider(node, field, i, item)
+                        self._consider(node, field, i, item, None)
             elif isinstance(value, ast.AST):
-                self._consider(node, field, None, value)
+                self._consider(node, field, None, value, None)
 
-    def _consider(self, parent, field, index, node):
-        if isinstance(parent, ast.Attribute) or (isinstance(parent, ast.Call) and field == "func"):
+    def _consider(self, parent, field, index, node, argctx):
+        if isinstance(parent, ast.Attribute):
             self.generic_visit(node)
             return
+        ann = _annotation_of(*argctx) if argctx is not None else ""
         if isinstance(node, ast.UnaryOp) and isinstance(node.op, ast.USub) and isinstance(node.operand, ast.Constant) \
                 and isinstance(node.operand.value, (int, float)) and not isinstance(node.operand.value, bool):
-            self.sites.append((parent, field, index, node, "num"))
+            self.sites.append((parent, field, index, node, "num", ann))
             return
         if isinstance(node, ast.Constant):
             v = node.value
             if isinstance(v, bool):
-                self.sites.append((parent, field, index, node, "bool"))
+                self.sites.append((parent, field, index, node, "bool", ann))
             elif isinstance(v, (int, float)):
-                self.sites.append((parent, field, index, node, "num"))
+                self.sites.append((parent, field, index, node, "num", ann))
             elif isinstance(v, str):
-                self.sites.append((parent, field, index, node, "str"))
-            elif v is None:
-                self.sites.append((parent, field, index, node, "none"))
+                self.sites.append((parent, field, index, node, "str", ann))
+            elif v is None and ann:
+                self.sites.append((parent, field, index, node, "none", ann))
             return
         if isinstance(node, (ast.Tuple, ast.List)) and len(node.elts) >= 2 and all(
                 isinstance(e, ast.Constant) and isinstance(e.value, (int, bool)) for e in node.elts):
-            self.sites.append((parent, field, index, node, "seq"))
+            self.sites.append((parent, field, index, node, "seq", ann))
         self.generic_visit(node)
 
 
@@ -714,27 +768,37 @@ def mutate_repr(tape, text: str):
         if k in used:
             continue
         used.add(k)
-        parent, field, index, node, kind = sites[k]
+        parent, field, index, node, kind, ann = sites[k]
+        none_ok = ("None" in ann or "Optional" in ann)
         if kind == "num":
             old = _num_value(node)
-            if isinstance(old, float):
-                how = tape.weighted([8, 1], "mutate.float")
-                new = tape.pick([x for x in _FLOATS if x != old], "mutate.float.value") if how == 0 else None
+            to_none = none_ok and tape.chance(1, 4, "mutate.to-none")
+            if to_none:
+                new = None
+            elif isinstance(old, float):
+                new = tape.pick([x for x in _FLOATS if x != old], "mutate.float.value")
             else:
-                how = tape.weighted([8, 1], "mutate.int")
-                new = tape.pick([x for x in _INTS if x != old], "mutate.int.value") if how == 0 else None
+                new = tape.pick([x for x in _INTS if x != old], "mutate.int.value")
             repl = _const(new)
             done.append(f"{type(old).__name__}->{new!r}")
         elif kind == "bool":
             repl = ast.Constant(value=not node.value)
             done.append("bool-flip")
         elif kind == "str":
-            how = tape.weighted([8, 1], "mutate.str")
-            new = tape.pick([x for x in _STRS if x != node.value], "mutate.str.value") if how == 0 else None
+            to_none = none_ok and tape.chance(1, 4, "mutate.to-none")
+            new = None if to_none else tape.pick([x for x in _STRS if x != node.value], "mutate.str.value")
             repl = ast.Constant(value=new)
             done.append("str->None" if new is None else "str")
         elif kind == "none":
-            new = tape.pick((0, 1, "x", 2), "mutate.none.value")
+            import re
+            cands = []
+            if re.search(r"\b(int|float)\b", ann):
+                cands += [0, 1, 2]
+            if re.search(r"\bstr\b", ann):
+                cands += ["x", ""]
+            if not cands:
+                continue
+            new = tape.pick(cands, "mutate.none.value")
             repl = ast.Constant(value=new)
             done.append(f"None->{new!r}")
         else:
